@@ -106,3 +106,17 @@ Definition cpp_mismatches (cs : list case) := mismatches false (fun m _ => cpp_h
 
 (** the step plan itself, for the property predicate on exact and float instances *)
 Definition fplan (max_dt cur out : float) := plan FNum max_dt cur out.
+
+(** the filter calls a tick adds to the held trace, oldest first (for the by-hand replay of C12) *)
+Definition new_events (held ret : list ev) : list ev := rev (firstn (length ret - length held) ret).
+
+Fixpoint cpp_history_events (max_dt : float) (h : float * list ev) (ts : list tick_in) : list (option (list ev)) :=
+  match ts with
+  | [] => []
+  | (out, c, rs) :: r =>
+      match cpp_tick FNum (list ev) rd (fun d s => (0%Z, d) :: s) (fun r s => ((1 + snd r)%Z, 0%float) :: s) fst
+              max_dt h out (odefault rs []) with
+      | None => None :: cpp_history_events max_dt h r
+      | Some (h', s) => Some (new_events (snd h) s) :: cpp_history_events max_dt h' r
+      end
+  end.
